@@ -3,14 +3,16 @@
 package srv
 
 import (
-	"time"
-	"sync/atomic"
+	"encoding/hex"
 	"fmt"
 	"net"
 	"os"
 	"path/filepath"
+	"sort"
 	"strings"
 	"sync"
+	"sync/atomic"
+	"time"
 
 	"github.com/coredhcp/coredhcp/config"
 	"github.com/coredhcp/coredhcp/handler"
@@ -89,14 +91,39 @@ func synSetup4(args ...string) (handler.Handler4, error) {
 	case "nilhandler":
 		return nil, nil
 	}
-	return func(req, resp *dhcpv4.DHCPv4) (*dhcpv4.DHCPv4, bool) {
+	return func(req, resp *dhcpv4.DHCPv4) (out *dhcpv4.DHCPv4, stop bool) {
+		rx := uint32(req.TransactionID[0])<<24 | uint32(req.TransactionID[1])<<16 | uint32(req.TransactionID[2])<<8 | uint32(req.TransactionID[3])
 		logMu.Lock()
-		invLog = append(invLog, invocation{4, id, markers4(resp), uint32(req.TransactionID[0])<<24 | uint32(req.TransactionID[1])<<16 | uint32(req.TransactionID[2])<<8 | uint32(req.TransactionID[3])})
+		invLog = append(invLog, invocation{4, id, markers4(resp), rx})
 		logMu.Unlock()
+		// what this handler returns, as it is at the moment it returns
+		defer func() {
+			var snap []byte
+			if out != nil {
+				snap = out.ToBytes()
+			}
+			logMu.Lock()
+			lastRet[4<<32|uint64(rx)] = snap
+			logMu.Unlock()
+		}()
 		kind, tag, _ := strings.Cut(beh, ":")
 		switch kind {
 		case "modify":
 			addMark4(resp, tag)
+			return resp, false
+		case "untype":
+			// the response loses its message type (a plain BOOTP reply)
+			addMark4(resp, tag)
+			delete(resp.Options, uint8(dhcpv4.OptionDHCPMessageType))
+			return resp, false
+		case "badtype":
+			addMark4(resp, tag)
+			resp.UpdateOption(dhcpv4.OptGeneric(dhcpv4.OptionDHCPMessageType, []byte{5, 0}))
+			return resp, false
+		case "retype":
+			// the response becomes a NAK
+			addMark4(resp, tag)
+			resp.UpdateOption(dhcpv4.OptMessageType(dhcpv4.MessageTypeNak))
 			return resp, false
 		case "modifyx":
 			addMark4(resp, tag)
@@ -130,7 +157,7 @@ func synSetup6(args ...string) (handler.Handler6, error) {
 	case "nilhandler":
 		return nil, nil
 	}
-	return func(req, resp dhcpv6.DHCPv6) (dhcpv6.DHCPv6, bool) {
+	return func(req, resp dhcpv6.DHCPv6) (out dhcpv6.DHCPv6, stop bool) {
 		xid := uint32(0)
 		if m, err := req.GetInnerMessage(); err == nil {
 			xid = uint32(m.TransactionID[0])<<16 | uint32(m.TransactionID[1])<<8 | uint32(m.TransactionID[2])
@@ -138,10 +165,30 @@ func synSetup6(args ...string) (handler.Handler6, error) {
 		logMu.Lock()
 		invLog = append(invLog, invocation{6, id, markers6(resp), xid})
 		logMu.Unlock()
+		defer func() {
+			var snap []byte
+			if out != nil {
+				snap = out.ToBytes()
+			}
+			logMu.Lock()
+			lastRet[6<<32|uint64(xid)] = snap
+			logMu.Unlock()
+		}()
 		kind, tag, _ := strings.Cut(beh, ":")
 		switch kind {
-		case "modify":
+		case "modify", "untype", "badtype":
 			addMark6(resp, tag)
+			return resp, false
+		case "retype":
+			// the response becomes an ADVERTISE/REPLY of the other kind
+			addMark6(resp, tag)
+			if m, ok := resp.(*dhcpv6.Message); ok {
+				if m.MessageType == dhcpv6.MessageTypeAdvertise {
+					m.MessageType = dhcpv6.MessageTypeReply
+				} else {
+					m.MessageType = dhcpv6.MessageTypeAdvertise
+				}
+			}
 			return resp, false
 		case "modifyx":
 			addMark6(resp, tag)
@@ -224,9 +271,10 @@ func GenO(t *rapid.T) OCase {
 		case k <= 8:
 			e.Beh = "modify:" + tag
 		case k == 9:
-			// modifies the response in a way a server might be tempted to read: a message-level
-			// status code that is not Success (DHCPv6), an error message option (DHCPv4)
-			e.Beh = "modifyx:" + tag
+			// modifies the response in a way a server might be tempted to read or to put right: a
+			// message-level status code that is not Success (DHCPv6), an error message option
+			// (DHCPv4), a response without / with a malformed / with another message type
+			e.Beh = rapid.SampledFrom([]string{"modifyx", "modifyx", "untype", "badtype", "retype"}).Draw(t, "odd-modify") + ":" + tag
 		case k <= 12:
 			e.Beh = "replace:" + tag
 		case k <= 15:
@@ -318,7 +366,7 @@ func expectRun(l []OEntry, ids []int, proto int) (log []invocation, final string
 		log = append(log, invocation{Proto: proto, ID: fmt.Sprintf("%d.%d", proto, i), Markers: cur})
 		kind, tag, _ := strings.Cut(e.Beh, ":")
 		switch kind {
-		case "modify", "modifyx", "replace":
+		case "modify", "modifyx", "replace", "untype", "badtype", "retype":
 			cur += tag
 		case "stop":
 			return log, cur + tag, true
@@ -408,6 +456,7 @@ func ExecO(c OCase) (res core.Result) {
 	if c.Has4 {
 		logMu.Lock()
 		invLog = nil
+		lastRet = map[uint64][]byte{}
 		logMu.Unlock()
 		p := gen.Pkt4{Op: 1, HType: 1, HLen: 6, Xid: 0x0c130004, CHAddr: "020000000001", GIAddr: "10.9.9.9"}
 		p.Opts = []gen.Opt4{{Code: 53, Hex: "01"}}
@@ -431,6 +480,14 @@ func ExecO(c OCase) (res core.Result) {
 				res.Viol = core.Violate("C13/v4/wrong-response-sent", "chain %v: the reply carries markers %q, the response returned last carries %q (err %v)", c.L4, markers4safe(rep), final, err)
 				return
 			}
+			if snap, ok := returnedLast(4, 0x0c130004); ok && len(ids4) > 0 {
+				a, errA := canon4(snap)
+				b, errB := canon4(sent[0].Payload)
+				if errA == nil && errB == nil && a != b {
+					res.Viol = core.Violate("C13/v4/sent-differs-from-response-returned-last", "chain %v: the last handler returned (as it was when it returned, options in code order)\n  %s\nwhat was sent is\n  %s", c.L4, a, b)
+					return
+				}
+			}
 		}
 		if len(ids4) >= 2 {
 			interesting = interesting || stopsEarlyOrReplaces(c.L4, ids4)
@@ -439,6 +496,7 @@ func ExecO(c OCase) (res core.Result) {
 	if c.Has6 {
 		logMu.Lock()
 		invLog = nil
+		lastRet = map[uint64][]byte{}
 		logMu.Unlock()
 		m := gen.Msg6Spec{Type: gen.M6Solicit, Xid: 0x130006, Client: 0}
 		for r := 0; r < c.Relay6; r++ {
@@ -485,6 +543,14 @@ func ExecO(c OCase) (res core.Result) {
 				res.Viol = core.Violate("C13/v6/wrong-response-sent", "chain %v: the reply carries other markers than the response returned last (%q, err %v)", c.L6, final, err)
 				return
 			}
+			if snap, ok := returnedLast(6, 0x130006); ok && len(ids6) > 0 {
+				a, errA := canon6(snap)
+				b, errB := canon6(rep.ToBytes())
+				if errA == nil && errB == nil && a != b {
+					res.Viol = core.Violate("C13/v6/sent-differs-from-response-returned-last", "chain %v (relayed %d times): the last handler returned (as it was when it returned, options sorted)\n  %s\nthe message that was sent is\n  %s", c.L6, c.Relay6, a, b)
+					return
+				}
+			}
 		}
 		if len(ids6) >= 2 {
 			interesting = interesting || stopsEarlyOrReplaces(c.L6, ids6)
@@ -495,6 +561,44 @@ func ExecO(c OCase) (res core.Result) {
 		res.Classes = append(res.Classes, "stop-before-end-or-replace")
 	}
 	return
+}
+
+// lastRet: per protocol and request transaction id, the wire form of what the handler invoked
+// last returned, taken at the moment it returned (nil response: no entry value)
+var lastRet = map[uint64][]byte{}
+
+func returnedLast(proto int, xid uint32) ([]byte, bool) {
+	logMu.Lock()
+	defer logMu.Unlock()
+	b, ok := lastRet[uint64(proto)<<32|uint64(xid)]
+	return b, ok && b != nil
+}
+
+// canon4 is a DHCPv4 message with its options in code order (what the codec writes)
+func canon4(b []byte) (string, error) {
+	m, err := dhcpv4.FromBytes(b)
+	if err != nil {
+		return "", err
+	}
+	return hex.EncodeToString(m.ToBytes()), nil
+}
+
+// canon6 is a DHCPv6 message with its options sorted: their order carries no meaning
+func canon6(b []byte) (string, error) {
+	d, err := dhcpv6.FromBytes(b)
+	if err != nil {
+		return "", err
+	}
+	m, ok := d.(*dhcpv6.Message)
+	if !ok {
+		return "relay:" + hex.EncodeToString(b), nil
+	}
+	var opts []string
+	for _, o := range m.Options.Options {
+		opts = append(opts, fmt.Sprintf("%d=%x", o.Code(), o.ToBytes()))
+	}
+	sort.Strings(opts)
+	return fmt.Sprintf("type %d xid %x options %v", m.MessageType, m.TransactionID, opts), nil
 }
 
 func markers4safe(r *dhcpv4.DHCPv4) string {
